@@ -148,9 +148,21 @@ def p_pairwise_distinct(ip, args, kw, ctx):
     return ip.conj(conj)
 
 
+def p_chr_digit(ip, args, kw, ctx):
+    d = args[0]
+    if not isz(d):
+        return "0123456789"[d]
+    if not ctx.entails(z3.And(d >= 0, d <= 9)):
+        from .interp import PyExc
+        from .sym import ExcVal
+        if not ctx.branch(simp(z3.And(d >= 0, d <= 9))):
+            raise PyExc(ExcVal("IndexError", ()))
+    return Seq('str', [Elems([simp(d + 48)])])
+
+
 def install(ip):
     ip.spec_prims.update({
         "crc16": p_crc16, "is_hex": p_is_hex, "amps_of": p_amps_of, "tenths": p_tenths, "utf8": p_utf8,
         "valid_hhmm": p_valid_hhmm, "hh_of": p_hh_of, "mm_of": p_mm_of,
-        "day_bit": p_day_bit, "is_member": p_is_member, "pairwise_distinct": p_pairwise_distinct,
+        "chr_digit": p_chr_digit, "day_bit": p_day_bit, "is_member": p_is_member, "pairwise_distinct": p_pairwise_distinct,
     })
